@@ -16,6 +16,7 @@ import (
 	"strconv"
 	"strings"
 	"sync"
+	"sync/atomic"
 	"time"
 )
 
@@ -91,6 +92,7 @@ func (c *Ctx) Quick() bool { return c.Tier != "thorough" }
 // code.  It returns false when the case must be skipped (it killed a worker
 // before and is reported separately).  replay builds the replay object lazily.
 func (c *Ctx) Case(id string) bool {
+	progress.Add(1)
 	c.Counters["evaluations"]++
 	if c.careful {
 		if c.skip[id] {
@@ -105,13 +107,19 @@ func (c *Ctx) Case(id string) bool {
 }
 
 // Add adds n to a named counter (states, transitions, ...).
-func (c *Ctx) Add(name string, n int64) { c.Counters[name] += n }
+func (c *Ctx) Add(name string, n int64) { progress.Add(1); c.Counters[name] += n }
+
+// progress is bumped by every Case/Add/Outcome call; the worker's watchdog
+// (see workerMain) uses it to tell a worker that is blocked for ever from one
+// that is working.
+var progress atomic.Int64
 
 // Nontrivial counts one distinct non-trivial case.
 func (c *Ctx) Nontrivial() { c.Counters["distinct_nontrivial"]++ }
 
 // Outcome records an observed outcome class (vacuity alarm when only one).
 func (c *Ctx) Outcome(class string) {
+	progress.Add(1)
 	if len(c.outcomes) < 4096 || c.outcomes[class] > 0 {
 		c.outcomes[class]++
 	}
@@ -166,14 +174,14 @@ func newCtx(prop, tier string, seed int64, shard, n int, budget time.Duration) *
 }
 
 type summary struct {
-	T         string           `json:"t"`
-	Counters  map[string]int64 `json:"counters"`
-	Outcomes  map[string]int64 `json:"outcomes"`
-	Samples   []any            `json:"samples"`
-	Expired   bool             `json:"expired"`
-	ViolKeys  map[string]int   `json:"viol_keys"`
-	Notes     []string         `json:"notes"`
-	NViol     int64            `json:"nviol"`
+	T        string           `json:"t"`
+	Counters map[string]int64 `json:"counters"`
+	Outcomes map[string]int64 `json:"outcomes"`
+	Samples  []any            `json:"samples"`
+	Expired  bool             `json:"expired"`
+	ViolKeys map[string]int   `json:"viol_keys"`
+	Notes    []string         `json:"notes"`
+	NViol    int64            `json:"nviol"`
 }
 
 // ---------------------------------------------------------------- entry point
@@ -245,6 +253,31 @@ func workerMain(args []string) {
 		}
 	}
 	runtime.GOMAXPROCS(2)
+	// Safety net, not an oracle: blocking that the harnesses cannot see (a real
+	// lock or channel operation outside the scheduler that never completes) would
+	// leave the worker, and so the check, waiting for ever.  Cases take
+	// milliseconds; a worker that has not finished a single step for 10 minutes is
+	// taken for dead: it prints its goroutines and exits, and the parent then
+	// treats it like any other worker death (careful re-run that names the case,
+	// which must hang again to be reported).
+	go func() {
+		limit := 600
+		if v, err := strconv.Atoi(os.Getenv("VERIF_STALL_SECS")); err == nil && v > 0 {
+			limit = v
+		}
+		last, since := progress.Load(), time.Now()
+		for {
+			time.Sleep(5 * time.Second)
+			if p := progress.Load(); p != last {
+				last, since = p, time.Now()
+			} else if time.Since(since) > time.Duration(limit)*time.Second {
+				buf := make([]byte, 1<<16)
+				buf = buf[:runtime.Stack(buf, true)]
+				fmt.Fprintf(os.Stderr, "VERIF-WATCHDOG: no progress for %d s: the case blocks for ever\n%s\n", limit, buf)
+				os.Exit(3)
+			}
+		}
+	}()
 	h.Run(c)
 	var notes []string
 	for s := range c.notes {
@@ -410,16 +443,24 @@ func parent(h *Harness, tier string) int {
 						break
 					}
 					mu.Lock()
+					detail := tail(r.stderr, 1500)
+					if ix := strings.Index(r.stderr, "VERIF-WATCHDOG"); ix >= 0 {
+						detail = r.stderr[ix:]
+						if len(detail) > 1500 {
+							detail = detail[:1500]
+						}
+					}
 					deaths = append(deaths, Violation{Key: "process-death", Witness: r.lastCase,
-						Detail: "worker process died while executing this case: " + tail(r.stderr, 1500), Harness: "death",
+						Detail: "worker process died while executing this case: " + detail, Harness: "death",
 						Replay: mustJSON(map[string]string{"case": r.lastCase})})
 					mu.Unlock()
 					skipped = append(skipped, r.lastCase)
 				}
 				if r.sum == nil && harnessErr == "" {
-					mu.Lock()
-					harnessErr = fmt.Sprintf("worker %d keeps dying (%d cases skipped)", i, len(skipped))
-					mu.Unlock()
+					// every attempt named a different fatal case: the deaths are reported as
+					// violations; this shard's remaining cases were not covered
+					r.sum = &summary{T: "sum", Counters: map[string]int64{}, Outcomes: map[string]int64{}, Expired: true, ViolKeys: map[string]int{},
+						Notes: []string{fmt.Sprintf("worker %d died on %d different cases in a row; the rest of its shard was not explored", i, len(skipped))}}
 				}
 			}
 			results[i] = r
